@@ -360,6 +360,8 @@ class BaseClient:
             mode |= 0o4100
         elif s[2] == "x":
             mode |= 0o0100
+        elif s[2] == "S":
+            mode |= 0o4000
         elif s[2] != "-":
             raise ValueError
 
@@ -367,6 +369,8 @@ class BaseClient:
             mode |= 0o2010
         elif s[5] == "x":
             mode |= 0o0010
+        elif s[5] == "S":
+            mode |= 0o2000
         elif s[5] != "-":
             raise ValueError
 
@@ -374,6 +378,8 @@ class BaseClient:
             mode |= 0o1000
         elif s[8] == "x":
             mode |= 0o0001
+        elif s[8] == "T":
+            mode |= 0o1000
         elif s[8] != "-":
             raise ValueError
 
